@@ -105,7 +105,8 @@ impl<D: DictionaryAccess> StatefulTokenizer<D> {
     /// Prepare StatefulTokenizer for the next data.
     /// Data must be written in the returned reference.
     pub fn reset(&mut self) -> &mut String {
-        self.top_path.as_mut().map(|p| p.clear());
+        // an analysis which failed after the best path was found leaves no path vector behind
+        self.top_path.get_or_insert_with(Vec::new).clear();
         self.oov.clear();
         self.input.reset()
     }
